@@ -1,4 +1,7 @@
 """C16: ExactSumSweep returns exact eccentricities, diameter and radius."""
+import collections
+import os
+import vlib
 from props import codec
 LEVEL = "other"
 EXPLANATION = (
@@ -15,12 +18,22 @@ EXPLANATION = (
     "(C16_symm_step_invariant, C16_symm_exit_exact, C16_symm_machine_exact) under the hypothesis radius <= n/2 that the "
     "initial bound n/2+1 presupposes (true of the largest-component radial set run_symm uses; that graph-theoretic fact is "
     "not proved).  The two former defects remain as refutations of the pre-repair rules (C16_radial_vertex_refuted, "
-    "C16_symm_radius_refuted; C16_witnesses_repaired).  NOT proved: the DIRECTED branch of all_cc_upper_bound (that the values "
-    "derived through the SCC DAG are upper bounds; only the abstract tightening step, C16_allcc_step_invariant_partial), so "
-    "the algorithm proof is not closed for directed graphs and the decision on every explored graph is made by the "
-    "extracted proved checker applied to the implementation's output; correspondence: replay of the logged visits on the "
-    "machine (all runs without an SCC step; all run_symm runs, SCC steps included with the pivots of the model of "
-    "find_best_pivot, C16_best_pivots_legal)")
+    "C16_symm_radius_refuted; C16_witnesses_repaired).  DIRECTED branch of all_cc_upper_bound (Algo/EssScc.v): the component "
+    "DAG of scc_graph.rs is sound and complete (C16_scc_graph_sound); the values of the two propagation loops bound the "
+    "eccentricities of the pivots and the per-node values those of the nodes (C16_ecc_pivot_f_bound, C16_ecc_pivot_b_bound, "
+    "C16_scc_node_bounds), for any SCC labelling in reverse topological order, any legal pivots, with the break / clamps; "
+    "hence every operation, the SCC step included, preserves the invariant for any order of the parallel per-node loop and "
+    "any legal run reaching the exit is accepted by the complete checker (C16_scc_step_invariant, C16_scc_run_invariant, "
+    "C16_machine_exact_dir); the numbering of the Tarjan model is such a labelling (C16_tarjan_scc_topo), so the statements "
+    "hold without hypotheses on the components (C16_machine_exact_tarjan) and the pivots of the model of find_best_pivot "
+    "are legal (C16_best_pivots_dir_legal, C16_tarjan_pivots_legal).  Correspondence: replay of EVERY logged run on the "
+    "machine -- visits, symmetric SCC steps (aspect replaya) and directed SCC steps (aspect replayd: components from the "
+    "extracted Tarjan model, bridge selection of scc_graph.rs, pivots of the model of find_best_pivot, propagation, "
+    "per-node refinement) -- with exact agreement of all reported values and iteration counters; the radial vertex is "
+    "compared exactly except for directed runs with SCC steps on pools of more than one thread, where it depends on the "
+    "schedule of the parallel loop (model: an explicit order argument) and is decided by the oracle aspect rv.  What is "
+    "NOT covered by proof: that the implementation follows the machine (correspondence is by replay on the explored "
+    "graphs); the choice of the next step (the utility heuristic) is taken from the log; breadth-first visits are C13")
 ASSUMPTIONS = [
     "the harness builds the transpose itself and symmetric inputs are symmetric (the library leaves the result undefined otherwise)",
     "default radial vertices: the documentation says 'the largest strongly connected component'; when several components "
@@ -29,13 +42,69 @@ ASSUMPTIONS = [
     "thread schedules are those the OS produces on pools of 1..16 threads",
     "run_symm: the exit theorem assumes radius <= n/2 for the radial set (a largest connected component); the fact is not "
     "proved in Coq, the aspect 'symhyp' checks it on every explored symmetric graph",
+    "directed SCC step: the replay takes the component numbering from the extracted model of sccs::tarjan (proved to be an "
+    "SCC labelling in reverse topological order, C16_tarjan_scc_topo; Level::run calls sccs::tarjan on the graph, and C15 "
+    "compares that routine with the model); a different numbering in the implementation would show as a replay mismatch",
+    "directed SCC step on pools of more than one thread: the radial vertex depends on the order in which the parallel "
+    "per-node loop meets the candidates (an argument of the model, quantified over in the theorems); it is not compared "
+    "with the model's canonical order, only checked by the oracle",
 ]
+
+
+def run_ess(ctx, harness_args, oracle_aspects, corr_aspects, nontrivial, seed_offset, name, timeout=3000):
+    """codec.run_simple with a property-specific distribution: which machine replayed the run (visits only, symmetric
+    SCC steps, directed SCC steps), how many directed SCC steps, and whether the schedule-dependent radial vertex of
+    a multi-thread directed run coincides with the one of the model's canonical order."""
+    tier, seed = ctx["tier"], ctx["seed"]
+    path = os.path.join(vlib.RUNS, "C16_%s_%s.cases" % (name, tier))
+    vlib.run_harness(["ess", "--seed", str(seed + seed_offset)] + harness_args, path, timeout=timeout)
+    order, cases, impl = vlib.read_cases(path)
+    results, _ = vlib.run_driver(path, timeout=timeout)
+    rmap = {r.get("id"): r for r in results}
+    evaluations, keys, samples = 0, set(), []
+    oracle_fail, corr_fail = [], []
+    dist = collections.Counter()
+    for cidx in order:
+        case = cases[cidx]
+        res = rmap.get(cidx, {"error": "no-driver-output"})
+        evaluations += 1
+        dist["chan=" + case["_chan"]] += 1
+        for a, label in (("replay", "visits-only"), ("replaya", "symmetric-scc-steps"), ("replayd", "directed-scc-steps")):
+            if a in res:
+                dist["replayed=" + label] += 1
+        if "replayd" in res:
+            dist["replayed_directed_scc_steps_total"] += int(res.get("i_dsteps", "0") or 0)
+            dist["directed_scc_pool=" + ("1" if case.get("pool") == "1" else ">1")] += 1
+        if "i_rvsched" in res:
+            dist["directed_scc_multithread_radial_vertex=" + res["i_rvsched"]] += 1
+        k = nontrivial(case)
+        if k is not None:
+            keys.add(k)
+        if len(samples) < 3:
+            samples.append({"id": cidx, "case": case["_line"][:300],
+                            "model": {k2: v for k2, v in res.items() if not k2.startswith("_")}})
+        of, cf = [], []
+        if "error" in res:
+            cf.append("driver-error(%s)" % res["error"])
+        for a, v in res.items():
+            if a.startswith("_") or a == "id" or v == "ok" or a == "error":
+                continue
+            if a in oracle_aspects and v.startswith("FAIL"):
+                of.append("%s:%s" % (a, v))
+            elif a in corr_aspects and v.startswith("FAIL"):
+                cf.append("%s:%s" % (a, v))
+        if of:
+            oracle_fail.append((cidx, case, of, path))
+        if cf:
+            corr_fail.append((cidx, case, cf, path))
+    return {"evaluations": evaluations, "distinct_nontrivial": len(keys), "distribution": dict(dist),
+            "samples": samples, "oracle_fail": oracle_fail, "corr_fail": corr_fail, "refused": 0, "rule": ""}
 
 
 def run(ctx):
     quick = ctx["tier"] == "quick"
     oracle = {"status", "exact", "eccf", "eccb", "diam", "dv", "radius", "rv", "sched", "symhyp"}
-    corr = {"replay", "replaya", "replayrv", "schedrv"}
+    corr = {"replay", "replaya", "replayd", "replayrv", "schedrv"}
     nontrivial = (lambda c: None if int(c.get("n", "0")) < 2 else
                   (c.get("g"), c.get("sym"), c.get("rad"), c.get("lvl"), c.get("tot")))
     matchers = []
@@ -45,10 +114,8 @@ def run(ctx):
         runs = [("rest", "1500", 0)] + [("exh4:%d/8" % k, "0", 1 + k) for k in range(8)]
     rs = []
     for mode, count, so in runs:
-        rs.append(codec.run_simple("C16", ctx, "ess", ["--count", count, "--maxn", "150", "--mode", mode],
-                                   oracle_aspects=oracle, corr_aspects=corr, nontrivial=nontrivial,
-                                   seed_offset=so, name="ess_" + mode.replace(":", "_").replace("/", "of"),
-                                   known_matchers=matchers))
+        rs.append(run_ess(ctx, ["--count", count, "--maxn", "150", "--mode", mode], oracle, corr, nontrivial, so,
+                          "ess_" + mode.replace(":", "_").replace("/", "of")))
     r = codec.merge(rs)
     r["rule"] = ("all digraphs on <= 3 nodes (loops included) x every level x use_tot x {default radial set, every explicit "
                  "radial set}; digraphs on 4 nodes (all in the thorough tier) and a sample on 5; all symmetric graphs on <= 4 "
